@@ -29,6 +29,8 @@ type genCase struct {
 	Nested bool `json:"nested,omitempty"`
 	// Lazy: the lexer does not clear the value cell and accumulates into it (see gen.Decorated.Lazy)
 	Lazy bool `json:"lazy,omitempty"`
+	// FieldN: the int member of the %union carries this name instead of n (Go variants)
+	FieldN string `json:"field_n,omitempty"`
 }
 
 func genDepth(w *Worker) int {
@@ -87,6 +89,8 @@ type obs struct {
 	runs  map[string][]*rt.Result
 	dumps map[string][][]int
 	items map[string]*gen.Item
+	// loose: yaccgo's rule list differs from the file's; no model run, judged against the file's grammar only
+	loose bool
 	// prefix sums of the token numbers of one input (lazy lexer)
 	lazyIn   string
 	lazySums []int
@@ -472,6 +476,7 @@ func genBatch(w *Worker, id string, cases []*genCase, name string) {
 		d := gen.DecorateOpt(c.Spec, tags, shape, c.Renumber)
 		d.Nested = c.Nested
 		d.Lazy = c.Lazy
+		d.FieldN = c.FieldN
 		o := &obs{c: c, g: g, d: d, runs: map[string][]*rt.Result{}, dumps: map[string][][]int{}, items: map[string]*gen.Item{}}
 		// the model comes from an in-process build of the same text
 		res := ygo.Build(d.Source(gen.Go, "model"), ygo.Options{Fuel: buildFuel})
@@ -487,12 +492,19 @@ func genBatch(w *Worker, id string, cases []*genCase, name string) {
 				w.Violate("C17|rules-differ-from-specification|"+c.Spec.Key(), fmt.Sprintf("grammar [%s]: the rule list yaccgo works on is not the rule list of the file (%s), so the trace names other rules than the ones reduced", c.Spec.Key(), verr.Error()),
 					&GCase{Origin: "gen", Extra: mustJSON(c)}, map[string]interface{}{"grammar_text": d.Source(gen.Go, "p")})
 			}
-			if id == "C07" {
-				// the action of rule i is emitted under case i: if yaccgo's rule list is not the file's, $n and $$ belong to another rule
-				w.Violate("C07|rules-differ-from-specification|"+c.Spec.Key(), fmt.Sprintf("grammar [%s]: the rule list yaccgo works on is not the rule list of the file (%s), so actions are attached to other rules than written", c.Spec.Key(), verr.Error()),
-					&GCase{Origin: "gen", Extra: mustJSON(c)}, map[string]interface{}{"grammar_text": d.Source(gen.Go, "p")})
+			if vw != nil && vw.RulesDiffer && (id == "C01" || id == "C02" || id == "C06") {
+				// only the rule list differs from the file's: what the generated parser accepts and which
+				// rules its actions report is still judged against the grammar of the FILE (no model run)
+				w.Count("gen_rule_list_differs_judged_without_model", 1)
+				o.loose = true
+			} else {
+				if id == "C07" {
+					// the action of rule i is emitted under case i: if yaccgo's rule list is not the file's, $n and $$ belong to another rule
+					w.Violate("C07|rules-differ-from-specification|"+c.Spec.Key(), fmt.Sprintf("grammar [%s]: the rule list yaccgo works on is not the rule list of the file (%s), so actions are attached to other rules than written", c.Spec.Key(), verr.Error()),
+						&GCase{Origin: "gen", Extra: mustJSON(c)}, map[string]interface{}{"grammar_text": d.Source(gen.Go, "p")})
+				}
+				continue
 			}
-			continue
 		}
 		o.vw = vw
 		o.tbl = g.LR0().Table()
@@ -738,7 +750,12 @@ func genJudge(w *Worker, id string, o *obs, variants []string) {
 			}
 			w.Count("gen_runs", 1)
 			// conformance with the model (binding, not a verdict)
-			p := o.predict(m, in)
+			var p rt.Result
+			if o.loose {
+				p = *r
+			} else {
+				p = o.predict(m, in)
+			}
 			w.Count("gen_model_runs", 1)
 			w.Count("gen_model_steps", int64(p.Fetches+len(p.Reds)))
 			if v == gen.TS {
